@@ -1129,16 +1129,30 @@ func mapInts(xs []string, f func(string) int) []int {
 	return out
 }
 
-// autogen.sh naming: strip '-' and spaces? The generator derives the Go name from the
-// dictionary name by removing every character that is not a letter or digit.
-func goName(s string) string {
+// autogen.sh naming for avp/codes.go: sed 's/-Id\([-"s]\)/-ID\1/g; s/-//g' - "-Id" followed by
+// '-', the end of the name or 's' becomes "-ID", then every '-' is removed.
+func goNameAVP(s string) string {
+	t := s + "\""
 	var b strings.Builder
-	for _, r := range s {
-		if (r >= 'a' && r <= 'z') || (r >= 'A' && r <= 'Z') || (r >= '0' && r <= '9') {
-			b.WriteRune(r)
+	for i := 0; i < len(t); {
+		if strings.HasPrefix(t[i:], "-Id") && i+3 < len(t) && (t[i+3] == '-' || t[i+3] == '"' || t[i+3] == 's') {
+			b.WriteString("-ID")
+			i += 3
+			continue
 		}
+		b.WriteByte(t[i])
+		i++
 	}
-	return b.String()
+	r := strings.TrimSuffix(b.String(), "\"")
+	return strings.ReplaceAll(r, "-", "")
+}
+
+// commands.go: sed 's/-//g'
+func goNameCmd(s string) string { return strings.ReplaceAll(s, "-", "") }
+
+// applications.go: spaces inside the quoted name become '_', the name is upper-cased, "_APP_ID" appended
+func goNameApp(s string) string {
+	return strings.ToUpper(strings.ReplaceAll(s, " ", "_")) + "_APP_ID"
 }
 
 func emitCodes(e *emitter, order []string, vars map[string]string) {
@@ -1163,7 +1177,7 @@ func emitCodes(e *emitter, order []string, vars map[string]string) {
 				}
 				seen[key] = true
 				val := unrec
-				if x, ok := envAvp[goName(a.Name)]; ok {
+				if x, ok := envAvp[goNameAVP(a.Name)]; ok {
 					val = x.String()
 				}
 				rows = append(rows, fmt.Sprintf("(%d, %d, %s)", intern(a.Name), a.Code, val))
@@ -1175,7 +1189,7 @@ func emitCodes(e *emitter, order []string, vars map[string]string) {
 				}
 				seen[key] = true
 				val := unrec
-				if x, ok := envCmd[goName(c.Name)]; ok {
+				if x, ok := envCmd[goNameCmd(c.Name)]; ok {
 					val = x.String()
 				}
 				crow = append(crow, fmt.Sprintf("(%d, %d, %s)", intern(c.Name), c.Code, val))
@@ -1198,6 +1212,28 @@ func emitCodes(e *emitter, order []string, vars map[string]string) {
 	}
 	e.f("/-- every distinct (AVP name, code) of the embedded dictionaries with the value of the exported constant of the derived name -/\ndef avpCodeJoin : List (Nat × Nat × Nat) := %s\n", strings.Join(parts, " ++ "))
 	e.f("/-- same for commands -/\ndef cmdCodeJoin : List (Nat × Nat × Nat) := [%s]\n", strings.Join(crow, ", "))
+	envApp := constEnv{}
+	constsOf(parseFile("diam/applications.go"), envApp, false)
+	var arow []string
+	aseen := map[string]bool{}
+	for _, v := range order {
+		var xf xFile
+		if err := xml.Unmarshal([]byte(vars[v]), &xf); err != nil {
+			continue
+		}
+		for _, app := range xf.App {
+			if aseen[app.Name] {
+				continue
+			}
+			aseen[app.Name] = true
+			val := unrec
+			if x, ok := envApp[goNameApp(app.Name)]; ok {
+				val = x.String()
+			}
+			arow = append(arow, fmt.Sprintf("(%d, %d, %s)", intern(app.Name), app.ID, val))
+		}
+	}
+	e.f("/-- applications: (name, id in the dictionary, value of <NAME>_APP_ID or unrecognised when absent) -/\ndef appCodeJoin : List (Nat × Nat × Nat) := [%s]\n", strings.Join(arow, ", "))
 }
 
 // ---------------------------------------------------------------- structural facts
